@@ -141,6 +141,30 @@ def expand_name(du: DefUse, e: ast.AST, at: ast.AST = None, depth: int = 4) -> a
     return cur
 
 
+def expand_deep(du: DefUse, e: ast.AST, at: ast.AST = None, keep=()) -> ast.AST:
+    """`e` with every local that has a single plain definition substituted away, recursively (naming an intermediate step changes nothing).
+    A name defined in terms of itself (x = f(x)) and the names in `keep` stand for themselves."""
+    import copy
+    if e is None:
+        return None
+
+    class X(ast.NodeTransformer):
+        depth = 0
+
+        def visit_Name(self, node):
+            if not isinstance(node.ctx, ast.Load) or node.id in keep:
+                return node
+            v = expand_name(du, node, at if at is not None else node)
+            if v is node or isinstance(v, ast.Lambda) or self.depth > 12 or any(isinstance(n_, ast.Name) and n_.id == node.id for n_ in ast.walk(v)):
+                return node
+            self.depth += 1
+            try:
+                return self.visit(copy.deepcopy(v))
+            finally:
+                self.depth -= 1
+    return X().visit(copy.deepcopy(e))
+
+
 def split_ifexp(e: ast.AST, guards=()) -> List[Tuple[list, ast.AST]]:
     """[(guards, expr)] with every conditional expression in `e` (outside comprehensions / lambdas) resolved one way."""
     import copy as _copy
